@@ -129,10 +129,18 @@ CHECK = {
         "model (everything with a TSIG) — and all responses of the "
         "REAL server — are decided per response by the extracted decoder (Spec/RespS.v wf_response over Spec/MsgWriterS.v "
         "decode_msg and Spec/RdataFormatS.v grammars)",
+        "suite signed (checks/siggen.py, harness/src/bin/impl_sig.rs, ocaml/run_sig.ml): CORRECTLY SIGNED queries over both "
+        "transports; ORACLE-DECIDED (wf_response on both responses, the runner kept as a co-process because the responses carry "
+        "the clock); no model column",
         "extraction: ExtrOcamlBasic only; the three implementation runners (responses' raw octets), checks/c02.py plumbing",
     ],
     "assumptions": ["zones hold RDATA that is valid for its type wherever the server copies it into a response, and no OPT/TSIG records (both are what zone loading enforces: Rdata::validate, OptNotAllowed/TsigNotAllowed)"],
 }
+
+# ---- fourth suite: CORRECTLY SIGNED requests, both transports (checks/siggen.py); decided by wf_response alone
+import siggen
+CHECK["suites"].append(dict(siggen.suite(siggen.oracle_c02, None, siggen.classify_c02),
+                            gen=lambda rng, tier: siggen.gen(rng, tier, *((800, 6, 150, 8) if tier == "quick" else (15000, 100, 3000, 200)))))
 
 MANIFEST = {
     "level_text": ("Theorem c02_wellformed (Coq, no axioms): for every request, transport, EDNS size, key set and every catalog whose "
@@ -149,7 +157,10 @@ MANIFEST = {
                    "composed model — the responses carrying a TSIG. The extracted "
                    "decoder keeps running on every response of the REAL server in three suites (C04's size-limit pairs over both "
                    "transports, C05's catalogs, the server-level stream with malformed requests, EDNS and TSIG): ~14k responses per "
-                   "quick run. First-wave theorems (meaning of the decoder's verdict, counts written by finish) are kept."),
+                   "quick run; and in a fourth suite, `signed`, on both responses to ~900 CORRECTLY SIGNED queries (verified TSIG, then "
+                   "query answering, truncation / clear_rrs after partial writes, TSIG RR that does not fit; key names 3..255 octets "
+                   "sharing labels with the names in the zone's RDATA, the apex and the QNAME, so that the TSIG owner is compressed "
+                   "against whatever the Writer remembers) — the only place where the paths behind a verified TSIG are exercised. First-wave theorems (meaning of the decoder's verdict, counts written by finish) are kept."),
     "level_note": ("Trusted: Coq kernel, extraction, the decoder's own definition (written from RFC 1035/2782/6891/8945), the fidelity "
                    "of the hand-written models (server request side, query answering, zone tree, Writer: each compared with the real "
                    "crate on every run), the runners."),
